@@ -456,6 +456,15 @@ def scalarDefault : PyVal → Bool
   | .bool _ | .int _ | .float _ | .str _ => true
   | _ => false
 
+/-- defaults that can be written after `=`: the scalars, and `None`.  `= None` is validated like any
+    other default but is not a default afterwards (`_default is not None` is the test everywhere): the
+    field stays required unless it is optional -/
+def eqDefault (v : PyVal) : Bool := scalarDefault v || v.isNone
+
+/-- outcome of a validated `= v` -/
+def eqResult (d : FieldDecl) (opt : Bool) (v : PyVal) : FieldRes :=
+  if v.isNone then .field d (!opt) none else .field d false (some v)
+
 /-- `field._try_default_value(v)`: the exception class of an invalid default is re-raised -/
 def tryDefault (O : Oracles) (d : FieldDecl) (v : PyVal) : R Unit :=
   bindE (validate O d v) fun _ => .ok ()
@@ -507,8 +516,8 @@ def finishField (O : Oracles) (d : FieldDecl) (opt : Bool) (dflt : DefaultSp) : 
   | .none => .ok (.field d (!opt) none)
   | .kw v _ => .ok (.field d false (some v))
   | .eq v _ =>
-    if !scalarDefault v then .error (.other "unmodelled-default")
-    else bindE (tryDefault O d v) fun _ => .ok (.field d false (some v))
+    if !eqDefault v then .error (.other "unmodelled-default")
+    else bindE (tryDefault O d v) fun _ => .ok (eqResult d opt v)
 
 def afterGtli (O : Oracles) (fs : FieldSp) (r : Option FieldDecl) : R FieldRes :=
   match r with
